@@ -178,7 +178,9 @@ func (e *emmiter) Listeners(evt EventName) []Listener {
 	datas := evtEntry.All()
 	listeners := make([]Listener, len(datas))
 	for i, l := range datas {
-		listeners[i] = l.fn
+		if l != nil {
+			listeners[i] = l.fn
+		}
 	}
 
 	return listeners
@@ -234,7 +236,8 @@ func (e *emmiter) RemoveListener(evt EventName, listener Listener) bool {
 	targetPtr := reflect.ValueOf(listener).Pointer()
 
 	remove, _ := evtEntry.RangeAndSplice(func(listener *eventEntry, i int) (bool, int, int, []*eventEntry) {
-		return listener.ptr == targetPtr, i, 1, nil
+		// a nil listener passed to On/Once is stored as a nil entry
+		return listener != nil && listener.ptr == targetPtr, i, 1, nil
 	})
 	return len(remove) > 0
 }
